@@ -200,7 +200,8 @@ def free_run(spec, res, rp):
     # mismatch after matching up to i-1: atomica's flows and state update from its own state were already confirmed by the one-step replay;
     # confirm the parameters from atomica's own state too - if they agree, the divergence is amplified rounding (a branch flipped), not a rule
     state = sim.state_from_result(res, i)
-    pv = sim.eval_pars(state, i)
+    snap = {pop.name: {par.name: float(rp.pv[par][i]) for par in pop.pars} for pop in res.model.pops}
+    pv = sim.eval_pars(state, i, snap=snap)
     for pop in res.model.pops:
         for par in pop.pars:
             if par.name in pv[pop.name]:
